@@ -6,6 +6,8 @@
 // came back. It contains no expected values: the TLA+ Reference (spec/StatsRef.tla) judges.
 package main
 
+import "encoding/json"
+
 type Call struct {
 	Pkg  string `json:"pkg"`
 	Cls  string `json:"cls"`
@@ -35,8 +37,9 @@ type Input struct {
 }
 
 type Case struct {
-	Case  string `json:"case"`
-	Input Input  `json:"input"`
+	Case    string           `json:"case"`
+	Input   Input            `json:"input"`
+	Machine *json.RawMessage `json:"machine,omitempty"` // the TLA+ Machine's own report for this input (passed through, drift note only)
 }
 
 // ModelFn is one recorded function of the code model the commands read (deps.json).
@@ -86,12 +89,13 @@ type Obs struct {
 }
 
 type Record struct {
-	Case     string    `json:"case"`
-	Input    Input     `json:"input"`
-	Model    []ModelFn `json:"model"`
-	Facts    Facts     `json:"facts"`
-	Observed Obs       `json:"observed"`
-	Rendered []string  `json:"rendered,omitempty"` // the concrete sources (for the replay file; not read by the spec)
+	Case     string           `json:"case"`
+	Input    Input            `json:"input"`
+	Model    []ModelFn        `json:"model"`
+	Facts    Facts            `json:"facts"`
+	Observed Obs              `json:"observed"`
+	Rendered []string         `json:"rendered,omitempty"` // the concrete sources (for the replay file; not read by the spec)
+	Machine  *json.RawMessage `json:"machine,omitempty"`
 }
 
 func emptyObs() Obs {
